@@ -136,6 +136,11 @@ func parseParams(value string, eval bool, options buildOpts) (
 			strParam = p.value
 		}
 
+		if options.noEval {
+			// Loading for listing / display must not alter the environment.
+			continue
+		}
+
 		if err = os.Setenv(strconv.Itoa(i+1), strParam); err != nil {
 			return
 		}
